@@ -35,7 +35,7 @@ def network_head_above_local_head(case_text, detail):
     was offline for longer than the pruning window) and no SyncFromHeight is configured."""
     d = _kv(case_text)
     try:
-        return int(d["local"]) < int(d["headH"]) and int(d["sfh"]) == 0
+        return int(d["local"]) < int(d["headH"]) and int(d["sfh"]) == 0 and "r1=err r2=err" in detail
     except (KeyError, ValueError):
         return False
 
